@@ -48,4 +48,100 @@ def sharedSpec (s : BState) (isolated : List Nat) (scope : List Nat) : List Nat 
 /-- what a container of balloon `i` is pinned to -/
 def pinned (s : BState) (i : Nat) (isolated scope : List Nat) : List Nat := s.cpus i ++ sharedSpec s isolated scope
 
+/-! ### request level: balloon types, sizes, members
+
+`AllocateResources` / `ReleaseResources` / `newBalloon` / `freeBalloon` on top of the accounting
+core.  A balloon is an index `i`; its type is `defs (defOf i)`.  The CPU allocator's picks stay
+oracle arguments; the step validates them by their effect (the new size), which is what its
+contract (C08) guarantees. -/
+
+structure Def where
+  minC : Nat
+  maxC : Nat        -- 0 = NoLimit
+  minB : Nat
+  maxB : Nat        -- 0 = NoLimit
+  deriving Repr, DecidableEq
+
+/-- `resizeBalloon`'s new CPU count: `(newMilliCpus + 999) / 1000`, capped by MaxCpus (if limited),
+then raised to MinCpus -/
+def targetCount (d : Def) (milli : Nat) : Nat :=
+  let n := (milli + 999) / 1000
+  let n := if d.maxC > 0 ∧ n > d.maxC then d.maxC else n
+  if d.minC > 0 ∧ n < d.minC then d.minC else n
+
+def requested (ms : List (String × Nat)) : Nat := (ms.map (·.2)).foldl (· + ·) 0
+
+/-- the size a balloon must have: `resizeBalloon(bln, 0)` when it is empty (release, and
+`MinCpus*1000` at creation give the same count), `max(1, requested)` otherwise -/
+def sizeSpec (d : Def) (ms : List (String × Nat)) : Nat :=
+  if ms.isEmpty then targetCount d 0 else targetCount d (max 1 (requested ms))
+
+/-- `MaxAvailMilliCpus` -/
+def maxAvail (d : Def) (ncpus nfree : Nat) : Nat :=
+  if d.maxC = 0 then (ncpus + nfree) * 1000 else d.maxC * 1000
+
+structure RState where
+  core : BState
+  defs : Nat → Def
+  defOf : Nat → Nat
+  members : Nat → List (String × Nat)
+  live : List Nat
+  
+def updM (f : Nat → List (String × Nat)) (i : Nat) (v : List (String × Nat)) : Nat → List (String × Nat) :=
+  fun j => if j = i then v else f j
+
+def allMembers (r : RState) : List String := r.live.flatMap (fun i => (r.members i).map (·.1))
+
+def countOf (r : RState) (k : Nat) : Nat := (r.live.filter (fun i => r.defOf i == k)).length
+
+/-- `resizeBalloon(bln, milli)` with the allocator's pick -/
+def resize (r : RState) (i : Nat) (milli : Nat) (pick : List Nat) : Option RState :=
+  let n := targetCount (r.defs (r.defOf i)) milli
+  let old := (r.core.cpus i).length
+  if n = old then some r
+  else if n > old then
+    match inflate r.core i pick with
+    | some c => if (c.cpus i).length = n then some { r with core := c } else none
+    | none => none
+  else
+    match deflate r.core i pick with
+    | some c => if (c.cpus i).length = n then some { r with core := c } else none
+    | none => none
+
+/-- `AllocateResources` once the fill chain has chosen balloon `i` (its guard
+`maxFreeMilliCpus(bln) >= request` is part of the step) -/
+def assign (r : RState) (i : Nat) (ctr : String) (milli : Nat) (pick : List Nat) : Option RState :=
+  if !r.live.contains i then none else
+  if (allMembers r).contains ctr then none else
+  let d := r.defs (r.defOf i)
+  let req := requested (r.members i)
+  if maxAvail d (r.core.cpus i).length r.core.free.length < req + milli then none else
+  let tot := max 1 (req + milli)
+  let r1 := if (r.core.cpus i).length * 1000 < tot then resize r i tot pick else some r
+  r1.map fun r' => { r' with members := updM r'.members i (r'.members i ++ [(ctr, milli)]) }
+
+/-- `ReleaseResources` of a member of balloon `i`; an emptied balloon is deflated to its minimum -/
+def dismiss (r : RState) (i : Nat) (ctr : String) (pick : List Nat) : Option RState :=
+  if !r.live.contains i then none else
+  if !((r.members i).map (·.1)).contains ctr then none else
+  let ms := (r.members i).filter (fun m => m.1 != ctr)
+  let r1 : RState := { r with members := updM r.members i ms }
+  if ms.isEmpty then resize r1 i 0 pick else resize r1 i (max 1 (requested ms)) pick
+
+/-- `newBalloon` (index `i` not in use), sized to `MinCpus` -/
+def create (r : RState) (i k : Nat) (pick : List Nat) : Option RState :=
+  if r.live.contains i then none else
+  if !(r.core.cpus i).isEmpty || !(r.members i).isEmpty then none else
+  let d := r.defs k
+  if d.maxB > 0 ∧ d.maxB ≤ countOf r k then none else
+  let r1 : RState := { r with defOf := fun j => if j = i then k else r.defOf j, live := i :: r.live }
+  resize r1 i (d.minC * 1000) pick
+
+/-- `freeBalloon` → `deleteBalloon`: only an empty balloon above the type's MinBalloons goes away -/
+def delete (r : RState) (i : Nat) : Option RState :=
+  if !r.live.contains i then none else
+  if !(r.members i).isEmpty then none else
+  if countOf r (r.defOf i) ≤ (r.defs (r.defOf i)).minB then none else
+  some { r with core := deleteBalloon r.core i, live := r.live.filter (· != i) }
+
 end Nri.Balloons
